@@ -487,6 +487,18 @@ pub proof fn lemma_mysql_nulls_emulation(a: Option<int>, b: Option<int>, desc: b
     ensures cmp_emulated(a, b, desc, mysql_isnull_desc(n)) == cmp_native(a, b, desc, n is First)
 {}
 ''', "render::order-item-spec", props=P)
+    # ORDER BY FIELD(..) items: the sort key is the item's RANK in the list (a CASE expression that is never NULL: NULL ranks with ELSE).  The native
+    # NULLS FIRST | LAST suffix therefore has no effect on such a key, while MySQL's emulation still sorts on `x IS NULL` first: the two are NOT
+    # equivalent - this lemma states the equivalence the property asks for and FAILS (recorded finding C09-order-field-nulls-diverges)
+    u.spec("""pub open spec fn field_rank(a: Option<int>, else_rank: int) -> int { match a { Some(x) => if 0 <= x < else_rank { x } else { else_rank }, None => else_rank } }
+pub proof fn lemma_mysql_nulls_emulation_field(a: Option<int>, b: Option<int>, else_rank: int, n: NullOrdering)
+    requires else_rank >= 0
+    ensures
+        // MySQL: ORDER BY (x IS NULL) <d>, CASE .. END      vs      PostgreSQL / SQLite: ORDER BY CASE .. END NULLS FIRST | LAST (the CASE value is never NULL)
+        ({ let c0 = flip(cmp_int(is_null_num(a), is_null_num(b)), mysql_isnull_desc(n)); if c0 != Cmp3::Eq { c0 } else { cmp_int(field_rank(a, else_rank), field_rank(b, else_rank)) } })
+            == cmp_int(field_rank(a, else_rank), field_rank(b, else_rank))
+{}
+""", "lemma_mysql_nulls_emulation_field", props=["C09"])
     for ty, d, sp in [("MysqlQueryBuilder", "mysql", "ord_nulls_mysql(*order_expr) + ord_key(*order_expr) + ord_dir(*order_expr)"),
                       ("PostgresQueryBuilder", "postgres", "ord_key(*order_expr) + ord_dir(*order_expr) + ord_nulls_std(*order_expr)"),
                       ("SqliteQueryBuilder", "sqlite", "ord_key(*order_expr) + ord_dir(*order_expr) + ord_nulls_std(*order_expr)")]:
@@ -561,6 +573,43 @@ pub open spec fn select_expr_events(x: SelectExpr) -> Seq<Ev> {
     u.fn("src/backend/sqlite/query.rs", "impl QueryBuilder for SqliteQueryBuilder", "insert_default_values", props=P, key="SqliteQueryBuilder::insert_default_values", vpath="SqliteQueryBuilderJ::insert_default_values",
          rules=[r_dynw, make_r_sub("R-param", r"\(&self, _: u32, sql: &mut W\)", "(&self, n_: u32, sql: &mut W)"), r_fmt, r_unit_tail], spec="ensures\n    // INSERT INTO t DEFAULT VALUES: SQLite's only form (one row)\n    final(sql).tr() == old(sql).tr().push(lit(\"DEFAULT VALUES\")),")
     u.emit("}\n")
+    # ---- INSERT .. VALUES (DEFAULT), (DEFAULT) ..: the shared default (MySQL / Postgres; SQLite overrides it above) ----------------------------
+    # R-rangefold: `(0..n).fold(true, |first, _| { if !first { SEP } BODY; false });` is the counting loop `k = 0; while k < n { .. k += 1 }`
+    def r_rangefold(text, ctx):
+        m = re.search(r"\(0\.\.(\w+)\)\.fold\(true, \|first, _\| \{", text)
+        if not m:
+            raise rl.LostAnchor(ctx.key + ": R-rangefold: `(0..n).fold(true, |first, _| {` not found")
+        toks = rl.code_toks(rl.lex(text[m.end() - 1:]))
+        close = rl.match_close(toks, 0)
+        body = text[m.end():m.end() - 1 + toks[close].start]
+        tail = text[m.end() - 1 + toks[close].end:]
+        m2 = re.match(r"\s*\)\s*;", tail)
+        mb = re.search(r"false\s*$", body.rstrip())
+        if not m2 or not mb:
+            raise rl.Unsupported(ctx.key + ": R-rangefold: unexpected closure shape")
+        body = body.rstrip()[:mb.start()]
+        ctx.app("R-rangefold", "(0..%s).fold(true, |first, _| { .. false })" % m.group(1), "let mut first = true; let mut k_ = 0; while k_ < %s { ..; first = false; k_ += 1; }" % m.group(1))
+        return text[:m.start()] + "let mut first = true;\n        let mut k_: u32 = 0;\n        while k_ < %s {%s first = false;\n            k_ += 1;\n        }" % (m.group(1), body) + tail[m2.end():]
+    u.spec("""// n default rows, comma separated: `(DEFAULT), (DEFAULT)` (PostgreSQL INSERT: VALUES ( DEFAULT ) [, ...]; MySQL: `(), ()`)
+pub open spec fn default_rows(n: nat) -> Seq<Ev>
+    decreases n
+{ if n == 0 { Seq::<Ev>::empty() } else if n == 1 { seq![Ev::DefaultKw] } else { default_rows((n - 1) as nat).push(lit(", ")).push(Ev::DefaultKw) } }
+""", "render::default-rows-spec", props=P)
+    u.emit("pub struct DfltDV;\nimpl DfltDV {\n")
+    u.spec(abstract("prepare_default_kw", "", "Ev::DefaultKw").replace("(&self, , sql", "(&self, sql"), "render::abstract-sub-renderers(default rows)", props=P)
+    u.fn(QB, "trait QueryBuilder", "insert_default_values", props=P, key="QueryBuilder::insert_default_values[default: MySQL, Postgres]", vpath="DfltDV::insert_default_values",
+         rules=[r_dynw, make_r_sub("R-opaque", r'write!\(sql, "\{\}", self\.insert_default_keyword\(\)\)\.unwrap\(\);', "self.prepare_default_kw(sql);"), r_rangefold, r_fmt],
+         spec="ensures\n    // VALUES, then one default row per requested row, comma separated\n    final(sql).tr() == old(sql).tr().push(lit(\"VALUES \")) + default_rows(num_rows as nat),",
+         loops=["invariant k_ <= num_rows, first == (k_ == 0), sql.tr() == tv + default_rows(k_ as nat),\n        decreases num_rows - k_,"],
+         proofs={"before#1:let mut first = true;": "let ghost tv = sql.tr();\nproof { assert(tv + Seq::<Ev>::empty() =~= tv); }"})
+    u.emit("}\n")
+    for ty, d, kw in [("MysqlQueryBuilder", "mysql", "()"), ("PostgresQueryBuilder", "postgres", "(DEFAULT)")]:
+        ovr = "fn insert_default_keyword" in u.src("src/backend/%s/query.rs" % d)
+        u.emit("pub struct %sDV;\nimpl %sDV {\n" % (ty, ty))
+        u.fn("src/backend/%s/query.rs" % d if ovr else QB, ("impl QueryBuilder for %s" % ty) if ovr else "trait QueryBuilder", "insert_default_keyword", ret="r", props=P,
+             key="%s::insert_default_keyword[%s]" % (ty, "override" if ovr else "default"), vpath="%sDV::insert_default_keyword" % ty,
+             spec="ensures\n    // %s: a row of defaults is written `%s`\n    r@ == \"%s\"@," % ("MySQL 15.2.7 (an empty value list)" if d == "mysql" else "PostgreSQL INSERT (DEFAULT per column)", kw, kw))
+        u.emit("}\n")
     # ---- table references: a plain / qualified / aliased name (unit ident), or a parenthesised sub-query / VALUES list / a function call, each with its alias
     u.spec('''
 pub open spec fn table_ref_events(t: TableRef) -> Seq<Ev> {
